@@ -4,8 +4,10 @@ EXTENDS Integers, Sequences, FiniteSets, TLC
 CONSTANTS MaxN, MaxK, Delay, Timeout, Durs, CancelTimes
 
 NoCancel == -1
-Kinds == {"ok", "fail", "hang", "rerr"}
-Outcome == [kind : {"ok","fail"}, d : Durs] \cup {[kind |-> "hang", d |-> 0], [kind |-> "rerr", d |-> 0]}
+Kinds == {"ok", "fail", "hang", "rerr", "stub"}
+\* "stub": a DialFunc that does not look at its context and succeeds after d (later than Timeout): Dial cannot bound it,
+\* but the connection it produces is still a connection - delivered, or closed if the outcome is already decided
+Outcome == [kind : {"ok","fail"}, d : Durs] \cup {[kind |-> "hang", d |-> 0], [kind |-> "rerr", d |-> 0], [kind |-> "stub", d |-> Timeout + 1]}
 
 VARIABLES n, oc, K, cancelAt,            \* scenario
           now, pcancel, done,
@@ -102,14 +104,14 @@ WorkerStart(w) ==
 EndOutcome(w) ==
   /\ wpc[w] = "dialing"
   /\ LET i == wt[w] IN
-     /\ oc[i].kind \in {"ok", "fail"} /\ now = wstart[w] + oc[i].d
-     /\ IF oc[i].kind = "ok"
+     /\ oc[i].kind \in {"ok", "fail", "stub"} /\ now = wstart[w] + oc[i].d
+     /\ IF oc[i].kind \in {"ok", "stub"}
         THEN /\ wpc' = [wpc EXCEPT ![w] = "sendconn"] /\ cstat' = [cstat EXCEPT ![i] = "estab"]
         ELSE /\ wpc' = [wpc EXCEPT ![w] = "senderr"] /\ UNCHANGED cstat
   /\ UNCHANGED <<now, pcancel, done, fpc, fi, ftimer, tclosed, wt, wstart, eclosed, mpc, errs, result>> /\ UNCH_SCEN /\ UNCH_MON
 
 EndCtx(w) ==
-  /\ wpc[w] = "dialing" /\ (done \/ now >= wstart[w] + Timeout)
+  /\ wpc[w] = "dialing" /\ oc[wt[w]].kind # "stub" /\ (done \/ now >= wstart[w] + Timeout)
   /\ wpc' = [wpc EXCEPT ![w] = "senderr"]
   /\ UNCHANGED <<now, pcancel, done, fpc, fi, ftimer, tclosed, wt, wstart, eclosed, mpc, errs, result, cstat>> /\ UNCH_SCEN /\ UNCH_MON
 
@@ -175,8 +177,8 @@ Immediate ==
 
 Deadlines ==
   (IF fpc = "wait" /\ ftimer > now THEN {ftimer} ELSE {})
-  \cup {wstart[w] + Timeout : w \in {x \in Workers : wpc[x] = "dialing" /\ wstart[x] + Timeout > now}}
-  \cup {wstart[w] + oc[wt[w]].d : w \in {x \in Workers : wpc[x] = "dialing" /\ oc[wt[x]].kind \in {"ok","fail"} /\ wstart[x] + oc[wt[x]].d > now}}
+  \cup {wstart[w] + Timeout : w \in {x \in Workers : wpc[x] = "dialing" /\ oc[wt[x]].kind # "stub" /\ wstart[x] + Timeout > now}}
+  \cup {wstart[w] + oc[wt[w]].d : w \in {x \in Workers : wpc[x] = "dialing" /\ oc[wt[x]].kind \in {"ok","fail","stub"} /\ wstart[x] + oc[wt[x]].d > now}}
   \cup (IF cancelAt # NoCancel /\ ~pcancel /\ cancelAt > now THEN {cancelAt} ELSE {})
 
 Min(S) == CHOOSE x \in S : \A y \in S : x <= y
